@@ -697,6 +697,9 @@ func returnsOf(fn *ssa.Function) []*ssa.Return {
 		if len(b.Instrs) == 0 {
 			continue
 		}
+		if deadRecoverBlock(fn, b) {
+			continue
+		}
 		if r, ok := b.Instrs[len(b.Instrs)-1].(*ssa.Return); ok {
 			out = append(out, r)
 		}
@@ -738,4 +741,82 @@ func resultValues(call ssa.CallInstruction, idx int) []ssa.Value {
 		}
 	}
 	return out
+}
+
+
+// deadRecoverBlock: go/ssa gives every function that defers anything a recover block (the place execution resumes
+// after a deferred call recovered from a panic). Unless some deferred closure of the function calls recover(), that
+// block never runs; its return is not a way out of the function.
+func deadRecoverBlock(fn *ssa.Function, b *ssa.BasicBlock) bool {
+	if fn.Recover == nil || b != fn.Recover {
+		return false
+	}
+	for _, bb := range fn.Blocks {
+		for _, in := range bb.Instrs {
+			d, ok := in.(*ssa.Defer)
+			if !ok {
+				continue
+			}
+			var target *ssa.Function
+			switch v := d.Call.Value.(type) {
+			case *ssa.Function:
+				target = v
+			case *ssa.MakeClosure:
+				target, _ = v.Fn.(*ssa.Function)
+			}
+			if target == nil {
+				if d.Call.IsInvoke() {
+					continue // a method of an interface value: cannot be recover itself; conservatively not a recoverer
+				}
+				if bi, isB := d.Call.Value.(*ssa.Builtin); isB && bi.Name() == "recover" {
+					return false
+				}
+				continue
+			}
+			if callsRecover(target, 0) {
+				return false
+			}
+		}
+	}
+	return true
+}
+
+func callsRecover(f *ssa.Function, depth int) bool {
+	if f == nil || f.Blocks == nil || depth > 2 {
+		return false
+	}
+	for _, b := range f.Blocks {
+		for _, in := range b.Instrs {
+			ci, ok := in.(ssa.CallInstruction)
+			if !ok {
+				continue
+			}
+			if bi, isB := ci.Common().Value.(*ssa.Builtin); isB && bi.Name() == "recover" {
+				return true
+			}
+			if callee := ci.Common().StaticCallee(); callee != nil && fnInModule(callee) && callsRecover(callee, depth+1) {
+				return true
+			}
+		}
+	}
+	return false
+}
+
+
+// localTemp: addr is (an element or field of) a local allocation of this function: a local variable, or the argument
+// array go/ssa builds for a variadic call.
+func localTemp(addr ssa.Value) bool {
+	for i := 0; i < 6; i++ {
+		switch x := addr.(type) {
+		case *ssa.Alloc:
+			return true
+		case *ssa.IndexAddr:
+			addr = x.X
+		case *ssa.FieldAddr:
+			addr = x.X
+		default:
+			return false
+		}
+	}
+	return false
 }
